@@ -199,6 +199,21 @@ func (c *c19Case) Exec() {
 			must(m.Open())
 			m.SeekNext(9)
 			closers = append(closers, m.Close)
+		case "mmapnoopen":
+			// a handle that was created (the file is mapped by the constructor) but never opened
+			m, err := recordio.NewMemoryMappedReaderWithPath(rioPath)
+			must(err)
+			closers = append(closers, m.Close)
+		case "mmapbadopen":
+			// Open fails on a file whose header is cut: the handle still has to be released by Close
+			bad := filepath.Join(dir, fmt.Sprintf("cut%d.rio", len(closers)))
+			must(os.WriteFile(bad, []byte{4, 0, 0}, 0644))
+			m, err := recordio.NewMemoryMappedReaderWithPath(bad)
+			must(err)
+			if m.Open() == nil {
+				c.Fatal = "a file with a three-byte header was opened"
+			}
+			closers = append(closers, func() error { m.Close(); return nil })
 		case "seqread":
 			f, err := recordio.NewFileReaderWithPath(rioPath)
 			must(err)
@@ -275,6 +290,11 @@ func (c *c19Case) Sx() string {
 	}
 	code := map[string]int{"full": 0, "abandoned": 1, "range": 2, "mmapseek": 3, "seqread": 4, "writer": 5}
 	var ops, after []string
+	for _, sc := range c.Scans {
+		if _, ok := code[sc]; !ok {
+			return "" // handles that are never (successfully) opened are not part of the reader ledger: the oracle judges them
+		}
+	}
 	for i, sc := range c.Scans {
 		ops = append(ops, sxI(code[sc]))
 		after = append(after, sxL(sxI(c.After[i].FDs), sxI(c.After[i].Maps)))
@@ -318,6 +338,9 @@ func genC19(r *rand.Rand, tier string) []Case {
 		if i%3 == 2 {
 			c := &c19Case{Mode: "reader"}
 			kinds := []string{"full", "abandoned", "range", "mmapseek", "seqread", "writer"}
+			if i%2 == 0 {
+				kinds = append(kinds, "mmapnoopen", "mmapbadopen")
+			}
 			for j := 0; j < 2+r.Intn(8); j++ {
 				c.Scans = append(c.Scans, kinds[r.Intn(len(kinds))])
 			}
